@@ -1490,6 +1490,17 @@ def run_C15(ctx):
             r = sc.run(year, ['1040', 'nc_d-400'], pol)
             r['kind'], r['scenario_seed'] = 'nc-usetax', sd
             extra.append(r)
+    # the form-exercising scenario families of the C02 oracle (IRA distributions / Roth conversions with basis: Form 8606;
+    # high wages: Form 8959; children with credits: Schedule 8812; NC itemizing; low-income investment returns: Form 8995
+    # floors; "everything"): the sign statement is about EVERY line, so every optional form has to be reached
+    import c02_oracle
+    for year in (2021, 2022, 2023):
+        for kind in ('ira', 'highwage', 'deps_rich', 'nc_itemize', 'lowinvest', 'everything'):
+            for idx in range(ctx.n(3, 16)):
+                pol, forms, on = c02_oracle.mk_scenario(f'{ctx.seed}/c15', year, kind, idx)
+                r = sc.run(year, forms, pol)
+                r['kind'], r['scenario_seed'] = 'c02:' + kind, f'{ctx.seed}/c15/{year}/{kind}/{idx}'
+                extra.append(r)
     for r in runs + extra:
         if r['exception'] is None and r['ok'] and to.nonneg_inputs(r):
             solved += 1
@@ -1528,11 +1539,22 @@ def run_C02(ctx):
     for f in gen.get('failed', []):
         ctx.notes.append('generator failure: ' + str(f)[:500])
     obl = gen.get('c02_obligations', {})
+    # instructions the matcher cannot certify are decided by the oracle only and are NOT counted as proof obligations --
+    # but only those of the reviewed baseline: a line that WAS certified and no longer is, is an obligation that broke
+    base = json.load(open(os.path.join(os.path.dirname(os.path.dirname(os.path.abspath(__file__))), 'c02_uncovered.json')))
+    base_keys = {(int(y), f, str(l)) for y, f, l, _r in base['uncovered']}
+    lost, oracle_only = [], []
     for o in obl.get('obligations', []):
-        ok = o.get('status') != 'failed' and ctx.build_ok
+        if o.get('status') == 'uncovered':
+            if (int(o['year']), o['form'], str(o['line'])) in base_keys:
+                oracle_only.append(o['id'])
+                continue
+            lost.append(o)
+        ok = o.get('status') not in ('failed', 'uncovered') and ctx.build_ok
         ctx.obligations.append({'name': 'Gen.' + o['id'], 'ok': bool(ok), 'check': f"{o.get('status')}: {o['year']} {o['form']}.{o['line']} vs {o.get('instruction', {}).get('op')}"})
     failed = gen.get('c02_failed', [])
-    ctx.gen_info = {'totals': obl.get('totals'), 'summary': obl.get('summary'), 'failed_ids': [f.get('id') for f in failed]}
+    ctx.gen_info = {'totals': obl.get('totals'), 'summary': obl.get('summary'), 'failed_ids': [f.get('id') for f in failed],
+                    'oracle_only_instructions': len(oracle_only), 'no_longer_certified': [o['id'] for o in lost]}
     res = c02_oracle.run(ctx.seed, ctx.tier)
     ctx.statement['c02-instructions'] = {
         'checked': sum(res['checked'].values()), 'distinct_nontrivial': sum(res['nontrivial'].values()),
@@ -1563,6 +1585,17 @@ def run_C02(ctx):
             if o['name'] == 'Gen.' + fid and known:
                 o['ok'] = ctx.build_ok
                 o['note'] = 'fails exactly at a recorded known finding; the negation is proved'
+    for o in lost:
+        fid = str(o['id'])
+        what = f"{o['year']} {o['form']}.{o['line']}: the line function can no longer be brought into the shape of the form's instruction ({o['instruction']['op']} {o['instruction']['args']}): {o.get('reason')}"
+        v = by_key.pop(fid, None)
+        if v is not None:
+            what += f"; on a real solution the line is {v.get('got')} where the instruction gives {v.get('expected')} on the solution's own values {v.get('operands')}"
+            rep = {'kind': 'scenario', 'case': dict(v.get('replay', {}), kind='scenario', observe=f"{v['form']}.{v['line']}"), 'obligation': fid}
+        else:
+            rep = {'obligation': fid, 'reason': o.get('reason'), 'instruction': o.get('instruction')}
+        ctx.report(fid, what, rep, found=v is not None)
+        reported += 1
     for key, v in by_key.items():
         ctx.report(key, f"{v['year']} {v['form']}.{v['line']} = {v.get('got')} but the form's instruction ({v['instruction']['op']} {v['instruction']['args']}) gives {v.get('expected')} on the solution's own values {v.get('operands')}",
                    {'kind': 'scenario', 'case': dict(v.get('replay', {}), kind='scenario', observe=f"{v['form']}.{v['line']}")})
@@ -1620,6 +1653,17 @@ def run_C08(ctx):
         ctx.report(f'c08_{key[0]}_{key[1]}_{key[2]}:solve', f"{v['what']}: {json.dumps(v['problems'], default=str)[:300]} (published {v.get('published')}, {str(v.get('cite'))[:100]})",
                    {'kind': 'scenario', 'case': v['replay']})
         reported += 1
+    # obligations of the reviewed tree that can no longer be STATED (the site using the published amount is gone)
+    expected = json.load(open(os.path.join(VERIF, 'tools', 'c08_expected_ids.json')))['ids']
+    have = {o['id'] for o in obl.get('obligations', [])}
+    gone = [i for i in expected if i not in have] if obl.get('obligations') else []
+    ctx.gen_info['no_longer_stated'] = gone[:50]
+    for fid in gone:
+        ctx.obligations.append({'name': 'Gen.' + fid, 'ok': False, 'check': 'stated on the reviewed tree, cannot be stated on this one (no site uses the amount any more)'})
+    for fid in gone[:8]:
+        if not reported:
+            ctx.report(fid, f'the obligation {fid} of the reviewed tree can no longer be stated: no line uses this published amount at that site any more, and the solves found no wrong amount', {'obligation': fid}, found=False)
+            reported += 1
     for d in res['template_checks'].get('disagreements', []):
         ctx.report(f"template:{d['template']}:{d['amount']}:{d['status']}", f"{d['template']} prints {d['printed']} for {d['amount']} ({d['status']}, {d['year']}); published {d['table']}", {'template': d})
         reported += 1
@@ -1805,6 +1849,17 @@ def run_C16(ctx):
                               '1040.number_1099-r': str(counts[3]), 'box_4': ['144.00', '75.50', '12.00'][j], 'box_2': '3100.00'})
             r = sc.run(year, ['1040'], pol)
             r['kind'], r['scenario_seed'], r['policy'] = 'copies', sd, pol
+            runs.append(r)
+    # high wages: Form 8959 is part of the return, so line 25c is Additional Medicare Tax withholding PLUS the other federal
+    # withholding the return asks for; with unemployment compensation forms that carry federal withholding of their own
+    import c02_oracle
+    for year in (2021, 2022, 2023):
+        for idx in range(ctx.n(3, 10)):
+            pol, forms, on = c02_oracle.mk_scenario(f'{ctx.seed}/c16', year, 'highwage', idx)
+            pol.fixed.update({'1040.other_federal_withholding': ['310.00', '0', '1250.75'][idx % 3], '1040.number_1099-g': str(idx % 3),
+                              '1099-g:0.box_4': '120.00', '1099-g:1.box_4': '45.50'})
+            r = sc.run(year, ['1040'], pol)
+            r['kind'], r['scenario_seed'], r['policy'] = 'highwage', f'{ctx.seed}/c16/{year}/highwage/{idx}', pol
             runs.append(r)
     # NC returns with N.C. tax withheld on every kind of payer form, jointly owned where the form allows it
     for year in (2021, 2022, 2023):
